@@ -759,3 +759,51 @@ def rule_freevars(ctx, prop: str) -> RuleResult:
                             f"and fission / lift_scope leave the use outside the scope of the declaration (ill-scoped procedure, KeyError at compile time)"))
     res.floor = 3
     return res
+
+
+def rule_copyident(ctx, prop: str) -> RuleResult:
+    """The analyses behind rewrite_expr, bind_expr, stage_mem ... locate "the statement the check is
+    about" by OBJECT IDENTITY (`if s is self.stmts[0]` in ContextExtraction) and take its context — the
+    enclosing guards, the configuration state before it — from where they find it.  That is only right if
+    no statement object occurs twice in a procedure.  `specialize` puts two copies of a block into one `if`;
+    both come from `Alpha_Rename(block).result()`, which (being a LoopIR_Rewrite) hands back the ORIGINAL
+    object for every statement that binds nothing.  The else-copy of `x[0] = 1.0` is then the very object of
+    the then-copy, and a check asked about the else-copy is decided under the then-branch's condition."""
+    ix = ctx.ix
+    res = RuleResult("COPYIDENT")
+    NE_ = "src/exo/rewrite/new_eff.py"
+    ce = ix.module(NE_).cls("ContextExtraction")
+    if ce is None:
+        raise AnalysisError("anchor vanished: ContextExtraction")
+    ident = [n for f in ce.methods.values() for n in f.body_nodes() if isinstance(n, ast.Compare) and len(n.ops) == 1 and isinstance(n.ops[0], ast.Is) and "stmts[0]" in ast.unparse(n.comparators[0])]
+    res.instances += 1
+    res.sample(f"ContextExtraction locates its statements by identity: {len(ident)} `is self.stmts[0]` tests")
+    res.ob(True)
+    if not ident:
+        # located some other way (by path): duplicates are harmless, nothing to require
+        res.floor = 1
+        return res
+    f = ix.func(S, "DoSpecialize")
+    res.analysed.append(f"{S}:DoSpecialize")
+    copies = {}
+    for n in f.body_nodes():
+        if isinstance(n, ast.Assign) and len(n.targets) == 1 and isinstance(n.targets[0], ast.Name) and isinstance(n.value, ast.Call):
+            v = n.value
+            if isinstance(v.func, ast.Attribute) and v.func.attr == "result" and isinstance(v.func.value, ast.Call) and last_name(v.func.value) == "Alpha_Rename" and v.func.value.args:
+                copies.setdefault(ast.unparse(v.func.value.args[0]), []).append(n.targets[0].id)
+    res.instances += 1
+    res.nontrivial += 1
+    dup = {src: tg for src, tg in copies.items() if len(tg) >= 2}
+    # a forced copy of every statement (e.g. a deep-copying helper) would make the branches distinct
+    forced = any(isinstance(n, ast.Call) and (last_name(n) or "") in ("deepcopy", "copy_stmts", "fresh_copy") for n in f.body_nodes())
+    ok = not dup or forced
+    res.ob(ok)
+    res.sample(f"DoSpecialize: branches built from {dict(dup)}; statements forced to be distinct objects: {forced}")
+    if not ok:
+        src, tg = sorted(dup.items())[0]
+        res.add(Finding("COPYIDENT", S, f.lineno, "DoSpecialize", f"branches:Alpha_Rename({src})",
+                        f"DoSpecialize builds `{tg[0]}` and `{tg[1]}` from `Alpha_Rename({src}).result()`: statements that bind nothing come back as the SAME objects, so one statement object sits in both "
+                        f"branches; ContextExtraction finds the first occurrence (`s is self.stmts[0]`) and decides a check about the else-copy under the then-branch's condition — "
+                        f"after specialize(x[0] = 1.0, 'n == 8'), rewrite_expr of the else-copy's index to `n - 8` is accepted"))
+    res.floor = 2
+    return res
